@@ -17,7 +17,8 @@ for sid in ids:
         print(sid, 'patch does not apply:', r.stderr[:200]); continue
     t0 = time.time()
     try:
-        c = subprocess.run([os.path.join(HERE, 'check'), prop], capture_output=True, text=True, timeout=3600)
+        c = subprocess.run([os.path.join(HERE, 'check'), prop], capture_output=True, text=True, timeout=3600,
+                           env=dict(os.environ, VERIF_EVIDENCE_DIR='/var/tmp/gufo-verif-seed-evidence'))
         out = c.stdout
         code = c.returncode
     finally:
